@@ -275,6 +275,16 @@ func yield(p pend) {
 	me.op = nil
 }
 
+// FnYield (rewrite R12, only in overlays generated with -fnpoints) is a scheduling point
+// at a function entry.  It creates no happens-before edge.  With Options.FnPoints off
+// it does nothing.
+func FnYield() {
+	if !opts.FnPoints || !schedOn() || s.aborting {
+		return
+	}
+	yield(pend{kind: opYield})
+}
+
 // AtomicYield is inserted in front of every statement that performs a
 // sync/atomic operation: a scheduling point at which the thread stays enabled.
 func AtomicYield() {
